@@ -853,7 +853,7 @@ Proof.
   - unfold np_diagonal_shape. cbn; change (Pos.to_nat 1) with 1%nat; cbv iota. reflexivity.
   - intros Ht. rewrite Hlen in Ht. split.
     + unfold np_diagonal_index, diagonal_index. cbn; change (Pos.to_nat 1) with 1%nat; cbv iota.
-      destruct (Z.ltb_spec offset 0), (Z.ltb_spec 0 offset); do 3 f_equal; lia.
+      destruct (Z.ltb_spec offset 0), (Z.ltb_spec 0 offset); (f_equal; f_equal; [lia | f_equal; lia]).
     + unfold diagonal_index. cbn; change (Pos.to_nat 1) with 1%nat; cbv iota.
       destruct (Z.ltb_spec offset 0), (Z.ltb_spec 0 offset), (Z.leb_spec 0 offset); try lia;
         repeat constructor; lia.
